@@ -171,7 +171,10 @@ func compMaps(
 		return object.BuiltInFalse
 	}
 
-	for hash, pair1 := range *m1.Pairs {
+	// NOTE: follow HashKeys order (iteration order of map is random and
+	// `==` of elements may have side effects)
+	for _, hash := range *m1.HashKeys {
+		pair1 := (*m1.Pairs)[hash]
 		pair2, ok := (*m2.Pairs)[hash]
 		if !ok {
 			return object.BuiltInFalse
